@@ -685,9 +685,9 @@ def check_case(case) -> Outcome:
 
 def shards(tier):
     if tier == "quick":
-        out = [{"kind": "script", "name": f"mixed{i}", "profile": "mixed", "n": 2000} for i in range(3)]
-        out += [{"kind": "script", "name": f"backups{i}", "profile": "backups", "n": 2000} for i in range(3)]
-        out += [{"kind": "script", "name": "nobackups0", "profile": "nobackups", "n": 1500}]
+        out = [{"kind": "script", "name": f"mixed{i}", "profile": "mixed", "n": 1500} for i in range(3)]
+        out += [{"kind": "script", "name": f"backups{i}", "profile": "backups", "n": 1500} for i in range(3)]
+        out += [{"kind": "script", "name": "nobackups0", "profile": "nobackups", "n": 1200}]
         out += [{"kind": "fault", "name": "fault0", "n": 20}]
         # seed-independent floor: one scripted input + fillers, all 3x3 x 3x3 scripts, reduced option set
         out += [{"kind": "enum", "name": "enum-quick", "slices": [{"m": 1, "retries": r, "use_backups": True, "reduced": True} for r in (0, 1, 2)]}]
@@ -745,10 +745,10 @@ def run_shard(spec, seed, tier) -> Acc:
             return out
 
         core.hyp_run(fault_cases(), body, seed=seed, max_examples=spec["n"], acc=acc,
-                     budget_s=45 if tier == "quick" else 900, shrink=False, is_known=is_known)
+                     budget_s=100 if tier == "quick" else 1800, shrink=False, is_known=is_known)
         return acc
     core.hyp_run(script_cases(spec.get("profile", "mixed")), check_script, seed=seed, max_examples=spec["n"], acc=acc,
-                 budget_s=50 if tier == "quick" else 1000, shrink=(tier == "thorough"), is_known=is_known)
+                 budget_s=150 if tier == "quick" else 2400, shrink=(tier == "thorough"), is_known=is_known)
     return acc
 
 
